@@ -373,19 +373,19 @@ Proof.
   - vm_compute. reflexivity.
 Qed.
 
-(* F-C02i: int64 left key 2^53 + 1, float64 (or uint64 on the streamed path) right key 2^53: the code compares both
-   as binary64 and joins them; the relational join does not.  Below 2^53 the same frames are joined correctly. *)
-Definition i_args (view:bool) (hinted:bool) (k:Z) : margs :=
-  mk_margs MFixed 0 hinted false hinted false
+(* F-C02i: int64 left keys 2^53, 2^53 + 1, float64 right key 2^53, hint-free merge: pandas casts both columns to
+   float64 and joins both left rows to the right row; the relational join does not.  One bit lower, or when the
+   pair is compared exactly, the same merge is the relational join. *)
+Definition i_args (view:bool) (k:Z) : margs :=
+  mk_margs MFixed 0 false false false false
            (view_keys [if view then 1 else 0] [[k; k + 1]]) (view_keys [if view then 1 else 0] [[k]])
            [(nV, numcol [10;20])] [(nW, numcol [30])] sufL sufR 64 64 8 64.
 Lemma binary64_comparison_breaks_merge :
-  data_cols (merge join_pairs (i_args true true (2 ^ 53))) = Ok [(nV, numcol [10;20]); (nW, numcol [30;30])] /\
-  merge join_pairs (i_args true false (2 ^ 53)) = Ok (false, [(nV, numcol [10;20]); (nW, numcol [30;30])]) /\
+  merge join_pairs (i_args true (2 ^ 53)) = Ok (false, [(nV, numcol [10;20]); (nW, numcol [30;30])]) /\
   merge_spec 0 [[2 ^ 53; 2 ^ 53 + 1]] [[2 ^ 53]] [(nV, numcol [10;20])] [(nW, numcol [30])] sufL sufR
   = [(nV, numcol [10;20]); (nW, numcol [30;0])] /\
-  data_cols (merge join_pairs (i_args true true (2 ^ 52)))
-  = Ok (merge_spec 0 [[2 ^ 52; 2 ^ 52 + 1]] [[2 ^ 52]] [(nV, numcol [10;20])] [(nW, numcol [30])] sufL sufR) /\
-  data_cols (merge join_pairs (i_args false true (2 ^ 53)))
-  = Ok (merge_spec 0 [[2 ^ 53; 2 ^ 53 + 1]] [[2 ^ 53]] [(nV, numcol [10;20])] [(nW, numcol [30])] sufL sufR).
-Proof. split; [|split; [|split; [|split]]]; vm_compute; reflexivity. Qed.
+  merge join_pairs (i_args true (2 ^ 52)) = merge join_pairs (i_args false (2 ^ 52)) /\
+  merge join_pairs (i_args false (2 ^ 53))
+  = Ok (false, merge_spec 0 [[2 ^ 53; 2 ^ 53 + 1]] [[2 ^ 53]] [(nV, numcol [10;20])] [(nW, numcol [30])] sufL sufR
+               ++ [(N_valid ++ sufR, CFix [0] [0] [[1];[0]])]).
+Proof. split; [|split; [|split]]; vm_compute; reflexivity. Qed.
